@@ -146,7 +146,7 @@ func ruleKinds(ir IgnoreRules) string {
 }
 
 func runC17(c *core.Ctx) {
-	n := c.Pick(120, 3000)
+	n := c.Pick(500, 4000)
 	c.RunHistories(n, Registry["C17"].Mons, func(w *core.World) {
 		wts := map[string]int{
 			"edit-new": 10, "edit-mod": 8, "edit-rm": 2,
@@ -269,7 +269,7 @@ func runC06CLI(c *core.Ctx) {
 	sets := subsets(c06Universe, 3)
 	r := newRand(c.Seed, 11)
 	r.Shuffle(len(sets), func(i, j int) { sets[i], sets[j] = sets[j], sets[i] })
-	n := c.Pick(110, 1500)
+	n := c.Pick(400, 2500)
 	if n > len(sets) {
 		n = len(sets)
 	}
